@@ -47,6 +47,8 @@ type c15PJCase struct {
 	Echo              string `json:"echo"`                // "" | echo | other | other-bad-sender | garbage
 	TemplateOdd       string `json:"template_odd"`        // "" | type | room | redacts | few-auth
 	Unsigned          bool   `json:"unsigned"`
+	// MembersOmitted: the answer is flagged as partial state; the checks on what it does contain are the same
+	MembersOmitted bool `json:"members_omitted,omitempty"`
 }
 
 type c15MakeJoinResp struct {
@@ -60,13 +62,14 @@ func (r *c15MakeJoinResp) GetRoomVersion() RoomVersion { return r.version }
 type c15SendJoinResp struct {
 	auth, state EventJSONs
 	event       spec.RawJSON
+	omitted     bool
 }
 
 func (r *c15SendJoinResp) GetAuthEvents() EventJSONs  { return r.auth }
 func (r *c15SendJoinResp) GetStateEvents() EventJSONs { return r.state }
 func (r *c15SendJoinResp) GetOrigin() spec.ServerName { return c15Local }
 func (r *c15SendJoinResp) GetJoinEvent() spec.RawJSON { return r.event }
-func (r *c15SendJoinResp) GetMembersOmitted() bool    { return false }
+func (r *c15SendJoinResp) GetMembersOmitted() bool    { return r.omitted }
 func (r *c15SendJoinResp) GetServersInRoom() []string { return []string{c15Local} }
 
 type c15JoinClient struct {
@@ -104,7 +107,7 @@ func (f *c15JoinClient) SendJoin(ctx context.Context, origin, s spec.ServerName,
 	if f.c.SendErr {
 		return nil, fmt.Errorf("c15 scripted send_join failure")
 	}
-	r := &c15SendJoinResp{}
+	r := &c15SendJoinResp{omitted: f.c.MembersOmitted}
 	for _, e := range f.auth {
 		r.auth = append(r.auth, spec.RawJSON(jplain(e)))
 	}
@@ -478,6 +481,7 @@ func c15PJGen(t *rapid.T) c15PJCase {
 	c.Echo = rapid.SampledFrom([]string{"", "echo", "echo", "other", "garbage"}).Draw(t, "echo")
 	c.TemplateOdd = rapid.SampledFrom([]string{"", "", "", "type", "room", "redacts", "few-auth"}).Draw(t, "templateOdd")
 	c.Unsigned = rapid.Bool().Draw(t, "unsigned")
+	c.MembersOmitted = rapid.Bool().Draw(t, "membersOmitted")
 	if (c.Version == "1" || c.Version == "4") && rapid.IntRange(0, 3).Draw(t, "noVersion") == 0 {
 		c.RespVersion = ""
 	}
